@@ -41,6 +41,9 @@ CLAIMED = {
  "C18": ("enum+seqmc", "exhaustive draining of the real scenario generator for every setting in the box (below a stated cap) and exhaustive enumeration of commit-log combinations through the real verdict function",
          "Generator: all 204 settings with nodes<=5, twins<=2, partitions<=3, views<=4 whose announced count <= 2*10^5 (3*10^6 thorough): yielded == announced, no repetition, two generators agree, EOF is sticky, every view well-formed, shuffle with seeds 0..2 reproducible and a permutation, JSON writer/reader round trip. Executor: all 40^k combinations of commit logs (length<=3 over 3 blocks) for 4 layouts of up to 4 nodes incl. a twin pair vs. a reference 'first position where two non-twin replicas differ'.",
          "Settings above the cap are listed in the evidence as not covered.", "§4 C18"),
+ "C10": ("enum", "bounded-exhaustive field grammar of wire messages delivered through the real service handlers and event loop of a running replica, oracle = no panic + protocol state unchanged for messages in which nothing verifies",
+         "~45k messages per configuration (proposal, vote, new-view, timeout, block fetch, Kauri contribution; every optional field absent/present, 7 hash forms, 6 views, 14-17 signature variants per scheme, 4 TC views, AggQC maps nil/empty/id 0/unknown id/nil entry/mixed), each first passed through protobuf marshal/unmarshal, delivered from leader / other / unknown / unidentified peers to a fresh and a certificate-advanced replica, 3 schemes x cache on/off x 3 rulesets; thorough repeats every message from every kind of peer.",
+         "Messages enter at the gorums service implementation, not at a socket; TLS identity is replaced by connection metadata; panics are located by their innermost repository frame.", "§4 C10"),
 }
 PENDING = {}  # id -> reason (properties not claimed)
 
